@@ -41,6 +41,9 @@ ASSUMPTIONS = [
     "C18_restore_identical / C18_remodel_idempotent / C18_remodel_from_backup are stated for runs that complete "
     "(a restore or remodel aborted by an OS error is outside the statement); the backup record seen by the "
     "second remodel run is taken equal to the first (the run provably never writes below backups/<name>)",
+    "backup names are strings as the API/CLI accept them; the model resolves them like realpath(join(backups_path, "
+    "name)) (empty and '.' components vanish): covered are all spellings resolving to ONE directory entry ('b1/', "
+    "'./b1', 'b1/.', 'b1//'); nested names ('a/b'), '..' and absolute names are outside the model and not generated",
     "C18_never_overwritten (code after the fix: commit, create_backup true): any manager object, any file system in "
     "which backups/<name> exists; C18_never_overwritten_stale_refuted keeps the witness of the repaired defect "
     "(create_backup false); VERIF_C18_FIXED=0 checks the pre-fix code against fixed=false",
@@ -50,6 +53,19 @@ TS = "2026-01-02 03:04:05.678901"
 OPS = [{"operation": "rename_columns", "description": "rename",
         "parameters": {"column_mapping": {"trial_type": "tt"}, "ignore_missing": True}}]
 REL_BACKUPS = ("derivatives", "remodel", "backups")
+
+
+ALIASES = ["{}", "{}/", "./{}", "{}/.", "{}//", "./{}//./"]
+
+
+def canon(name):
+    """The directory entry a backup name resolves to under realpath(join(backups_path, name))."""
+    return "/".join(c for c in name.split("/") if c not in ("", "."))
+
+
+def alias(name, i):
+    """The i-th spelling of the same directory (0 = as given)."""
+    return ALIASES[i % len(ALIASES)].format(name)
 
 
 class Interrupt(BaseException):
@@ -286,8 +302,9 @@ def real_crash(scn):
         shutil.copytree(init, d)
         BackupManager(d)
         base_state = snapshot(d)
-        bdir = "/".join(REL_BACKUPS) + "/" + scn["name"]
-        existing = scn["name"] in [p["name"] for p in scn.get("pre", [])]
+        cname = canon(scn["name"])
+        bdir = "/".join(REL_BACKUPS) + "/" + cname
+        existing = cname in [canon(p["name"]) for p in scn.get("pre", [])]
 
         def outside(st):
             return {p: v for p, v in st.items() if existing or not (p == bdir or p.startswith(bdir + "/"))}
@@ -305,26 +322,27 @@ def real_crash(scn):
                 out["violations"].append(["crash-listed-complete", [n, k], msg])
             oc, m2 = manager_outcome(d)
             if m2 is not None:
-                for msg in check_listed_complete(m2, scn["name"], tree0, "fresh manager"):
+                for msg in check_listed_complete(m2, cname, tree0, "fresh manager"):
                     out["violations"].append(["crash-listed-complete", [n, k], msg])
                 for pre in scn.get("pre", []):      # other backups stay intact
-                    if pre["name"] != scn["name"]:
-                        for msg in check_listed_complete(m2, pre["name"], tree0, "other backup"):
+                    if canon(pre["name"]) != cname:
+                        for msg in check_listed_complete(m2, canon(pre["name"]), tree0, "other backup"):
                             out["violations"].append(["crash-other-backup", [n, k], msg])
             state = snapshot(d)
             out["points"].append({"pt": [n, k], "run": r, "outcome": oc, "state": state})
             # C18_crash_then_create on the implementation: the manager object that was interrupted (constructed
             # before the half-made directory existed) retries the same name: refused, nothing changes
             if FIXED and k < 0 and 1 <= n < len(trace) and not existing and r == ["interrupted"]:
+                retry = alias(cname, i)       # any spelling of the same directory
                 try:
                     with Instr(d):
-                        r2 = ["ok", m.create_backup(abs_files(d, scn), scn["name"])]
+                        r2 = ["ok", m.create_backup(abs_files(d, scn), retry)]
                 except Exception as e:  # noqa
                     r2 = ["exn", exn_name(e)]
                 st2 = snapshot(d)
                 if r2 != ["ok", False] or st2 != state:
-                    out["violations"].append(["crash-then-create", [n, k], f"retry on a half-made backup -> {r2}, "
-                                              f"changed {diff_state(st2, state)}"])
+                    out["violations"].append(["crash-then-create", [n, k], f"retry as {retry!r} on a half-made backup -> "
+                                              f"{r2}, changed {diff_state(st2, state)}"])
                     state = st2
             if outside(state) != outside(base_state):
                 what = "never-overwritten" if existing else "create-touches-only"
@@ -334,7 +352,7 @@ def real_crash(scn):
                 shutil.copytree(init, d)
                 BackupManager(d)
             elif not existing:
-                shutil.rmtree(os.path.join(d, *REL_BACKUPS, scn["name"]), ignore_errors=True)
+                shutil.rmtree(os.path.join(d, *REL_BACKUPS, cname), ignore_errors=True)
     finally:
         shutil.rmtree(base, ignore_errors=True)
     return out
@@ -465,12 +483,12 @@ def real_hist(scn):
             # ------------- oracle (statement clauses, checked on the implementation)
             bdir = "/".join(REL_BACKUPS)
             if st["op"] in ("create", "stale"):
-                nm = st["name"]
+                nm = canon(st["name"])
                 if nm in originals:
                     # an existing backup of the same name is never overwritten
                     under = {p for p in changed if p == f"{bdir}/{nm}" or p.startswith(f"{bdir}/{nm}/")}
                     if under or (res[0] == "ok" and res[1] is True):
-                        out["violations"].append(["never-overwritten", si, f"create_backup on existing {nm!r} -> {res}, "
+                        out["violations"].append(["never-overwritten", si, f"create_backup({st['name']!r}) on existing {nm!r} -> {res}, "
                                                   f"changed {sorted(under)[:3]}", "stale" if st["op"] == "stale" else None])
                 elif res[0] == "ok" and res[1] is not False and f"{bdir}/{nm}/backup_lock.json" in after:
                     rec["keys"] = list(json.loads(after[f"{bdir}/{nm}/backup_lock.json"]))
@@ -481,8 +499,8 @@ def real_hist(scn):
                     else:
                         for msg in check_listed_complete(m2, nm, before, "after create"):
                             out["violations"].append(["created-backup-complete", si, msg, None])
-            if st["op"] == "restore" and st["name"] in originals:
-                orig = originals[st["name"]]
+            if st["op"] == "restore" and canon(st["name"]) in originals:
+                orig = originals[canon(st["name"])]
                 sel = [k for k in orig if (not st["tasks"]) or task_match(st["tasks"], k)]
                 allowed = set(sel) | set().union(*[ancestors(k) for k in sel]) if sel else set()
                 extra = changed - allowed
@@ -493,8 +511,8 @@ def real_hist(scn):
                     for k in (sel if not st["tasks"] else [k for k in sel if k in changed]):
                         if after.get(k) != orig[k]:
                             out["violations"].append(["restore-identical", si, f"{k!r} differs from the backed-up original", None])
-            if st["op"] == "remodel" and st["name"] in originals and res == ["ok"]:
-                orig = originals[st["name"]]
+            if st["op"] == "remodel" and canon(st["name"]) in originals and res == ["ok"]:
+                orig = originals[canon(st["name"])]
                 for t in rec["targets"]:
                     if t in orig and orig[t] is not None:
                         exp = compute_op(orig[t], base)
@@ -505,7 +523,7 @@ def real_hist(scn):
                         diff = [p for p in set(after) | set(before) if out["steps"][-1]["state"].get(p) != after.get(p)]
                         out["violations"].append(["remodel-idempotent", si, f"second run differs at {sorted(diff)[:4]}", None])
             if st["op"] == "remodel":
-                pre = f"{bdir}/{st['name']}/backup_root/"
+                pre = f"{bdir}/{canon(st['name'])}/backup_root/"
                 tbl = {}
                 for p_, c_ in before.items():
                     if p_.startswith(pre) and c_ is not None:
@@ -727,10 +745,13 @@ def gen_crash(rng, i, malformed=False):
     sel = rng.sample(fl, rng.randint(0 if rng.random() < 0.1 else 1, len(fl))) if fl else []
     if sel and rng.random() < 0.15:
         sel.append(rng.choice(sel))          # duplicate entry
-    scn = {"kind": "crash", "tree": tree, "files": sel, "name": rng.choice(BNAMES), "seed": i,
+    nm0 = rng.choice(BNAMES)
+    scn = {"kind": "crash", "tree": tree, "files": sel, "name": nm0 if rng.random() < 0.75 else alias(nm0, rng.randint(1, 5)),
+           "seed": i,
            "all_k": rng.random() < 0.04, "pre": []}
     if rng.random() < 0.35 and fl:
-        scn["pre"].append({"name": rng.choice(BNAMES), "files": rng.sample(fl, rng.randint(1, len(fl)))})
+        scn["pre"].append({"name": nm0 if rng.random() < 0.4 else rng.choice(BNAMES),
+                           "files": rng.sample(fl, rng.randint(1, len(fl)))})
     if malformed:
         x = rng.random()
         if x < 0.3:
@@ -752,18 +773,19 @@ def gen_hist(rng, i):
         tree["f_task_go_events.tsv"] = gen_tsv(rng)
         fl = files_of(tree)
     name = rng.choice(BNAMES)
+    first = name if rng.random() < 0.85 else alias(name, rng.randint(1, 5))
     steps = []
     stale = rng.random() < 0.15
     if stale:
         steps.append({"op": "hold", "id": "0"})
     if rng.random() < 0.25:
-        steps.append({"op": "create", "files": [], "name": name, "via": "cli"})
+        steps.append({"op": "create", "files": [], "name": first, "via": "cli"})
         sel = fl
     else:
         ev = [f for f in fl if f.endswith("_events.tsv")]
         sel = rng.sample(fl, rng.randint(1, len(fl))) if rng.random() < 0.5 else ev + rng.sample(
             [f for f in fl if f not in ev], rng.randint(0, len(fl) - len(ev)))
-        steps.append({"op": "create", "files": sel, "name": name})
+        steps.append({"op": "create", "files": sel, "name": first})
     dirs = [""] + [r for r, v in tree.items() if v is None and not r.startswith("derivatives")]
     live = set(fl)
     for _ in range(rng.randint(2, 8)):
@@ -781,7 +803,7 @@ def gen_hist(rng, i):
             steps.append({"op": "delete", "path": p})
             live.discard(p)
         elif x < 0.7:
-            steps.append({"op": "restore", "name": name if rng.random() < 0.9 else "nope",
+            steps.append({"op": "restore", "name": name if rng.random() < 0.85 else rng.choice(["nope", name + "/"]),
                           "tasks": rng.choice([[], [], ["go"], ["x", "go"], ["stop"], [""]]),
                           "via": rng.choice(["api", "cli"])})
             live |= set(sel)
@@ -790,13 +812,13 @@ def gen_hist(rng, i):
             steps += [st, dict(st)]
         elif x < 0.92:
             steps.append({"op": "create", "files": rng.sample(fl, rng.randint(1, len(fl))),
-                          "name": name if rng.random() < 0.7 else rng.choice(BNAMES),
+                          "name": alias(name, rng.randint(0, 5)) if rng.random() < 0.75 else rng.choice(BNAMES),
                           "via": rng.choice(["api", "api", "cli"])})
         else:
             steps.append({"op": "list"})
     if stale:
         steps.append({"op": "write", "path": sel[0], "data": "CHANGED AFTER BACKUP\n"})
-        steps.append({"op": "stale", "id": "0", "files": sel, "name": name})
+        steps.append({"op": "stale", "id": "0", "files": sel, "name": alias(name, rng.randint(0, 5))})
     steps.append({"op": "list"})
     return {"kind": "hist", "tree": tree, "steps": steps}
 
@@ -809,6 +831,28 @@ CORPUS = [
                {"op": "write", "path": "sub/a_task_x.t", "data": "\t"},
                {"op": "stale", "id": "0", "files": ["sub/a_task_x.t", 'c"\\'], "name": "b1"},
                {"op": "list"}]},
+    # every spelling of an existing backup's directory is refused (fresh manager, CLI, stale manager)
+    {"kind": "hist", "tree": {"sub": None, "sub/a_task_x.t": "\x01\x02\x03", 'c"\\': "\x07"},
+     "steps": [{"op": "hold", "id": "0"},
+               {"op": "create", "files": ["sub/a_task_x.t", 'c"\\'], "name": "b1"},
+               {"op": "write", "path": "sub/a_task_x.t", "data": "\t"},
+               {"op": "create", "files": ["sub/a_task_x.t", 'c"\\'], "name": "b1/"},
+               {"op": "create", "files": ["sub/a_task_x.t"], "name": "./b1"},
+               {"op": "create", "files": [], "name": "b1/.", "via": "cli"},
+               {"op": "create", "files": ["sub/a_task_x.t"], "name": "b1//"},
+               {"op": "stale", "id": "0", "files": ["sub/a_task_x.t", 'c"\\'], "name": "./b1//./"},
+               {"op": "restore", "name": "b1", "tasks": [], "via": "api"},
+               {"op": "list"}]},
+    # a backup created under a non-canonical spelling is the backup of the resolved name
+    {"kind": "hist", "tree": {"n_task_go_events.tsv": "onset\tduration\ttrial_type\n1\t2\tgo\n"},
+     "steps": [{"op": "create", "files": ["n_task_go_events.tsv"], "name": "./bk 2/"},
+               {"op": "write", "path": "n_task_go_events.tsv", "data": "changed"},
+               {"op": "create", "files": ["n_task_go_events.tsv"], "name": "bk 2"},
+               {"op": "restore", "name": "bk 2", "tasks": [], "via": "cli"},
+               {"op": "list"}]},
+    {"kind": "crash", "tree": {"a.txt": "xyz", "d": None, "d/b.bin": "\x00\xff"}, "files": ["a.txt", "d/b.bin"],
+     "name": "b1/", "pre": [], "all_k": True},
+    {"kind": "crash", "tree": {"a.txt": "xyz"}, "files": ["a.txt"], "name": "./b1", "pre": [{"name": "b1", "files": ["a.txt"]}]},
     # the Coq non-vacuity instance, every crash point and every byte of every partial write
     {"kind": "crash", "tree": {"sub": None, "sub/a_task_x.t": "\x01\x02\x03", 'c"\\': "\x07"},
      "files": ["sub/a_task_x.t", 'c"\\'], "name": "b1", "all_k": True, "pre": []},
@@ -909,7 +953,7 @@ def run(tier, seed, res, model_ok=True, proof_ok=True):
                     seen.add(key)
                     inner += 1
             oc = p["outcome"]
-            outcomes["raises" if oc[0] == "exn" else ("listed" if scn["name"] in oc[1] else "not_listed")] += 1
+            outcomes["raises" if oc[0] == "exn" else ("listed" if canon(scn["name"]) in oc[1] else "not_listed")] += 1
         mod = False
         for st, rec in zip(scn.get("steps", []), r.get("steps", [])):
             kinds[st["op"]] = kinds.get(st["op"], 0) + 1
@@ -925,7 +969,7 @@ def run(tier, seed, res, model_ok=True, proof_ok=True):
         "rule": "crash points strictly inside the effect trace of create_backup or inside a copy / the record write "
                 "(distinct by tree, selection, name, point) + restore/remodel steps executed after a modification "
                 "or deletion of data files",
-        "samples": [cases[1]["files"], cases[len(CORPUS)]["files"], cases[-1]["steps"][:3]],
+        "samples": [[st.get("name") for st in cases[1]["steps"]], cases[len(CORPUS)]["files"], cases[-1]["steps"][:3]],
         "histogram": {"scenarios_crash": n_crash + n_mal, "scenarios_history": n_hist, "crash_points": n_points,
                       "history_steps": n_steps, "outcome_after_crash": outcomes, "step_kinds": kinds},
         "disagreements_checked": disagreements,
